@@ -28,3 +28,47 @@ CHECKS.update({
   'note': 'The statement is two one-sided claims; the gap between them is EITHER. Known findings K1-K5, K8, K20 are attributed by narrow class predicates (wcverif/findings.py); Windows hidden attributes are unreachable on Linux.',
  },
 })
+CHECKS.update({
+ 'C07': {
+  'technique': 'Hypothesis-generated pattern lists / exclusions / SPLIT texts / BRACE templates with expansion lists known by construction; metamorphic oracle built from wcmatch single-pattern answers',
+  'text': 'The combined call (lists, exclude=, inline ! / - negation, NEGATEALL, NODIR, SPLIT, BRACE) is compared on every name up to length 3 over the minterm representatives with the boolean combination of single-pattern calls that the statement prescribes (exclusions with DOTMATCH forced), under permutation and duplication, through fnmatch/filter/compile and globmatch/globfilter/compile; translate() list lengths are checked; a table of fixed spellings (`!(`, escaped markers, `|` in brackets/groups, `{x}`) pins the special cases.',
+  'design_ref': 'DESIGN.md section 3 C07',
+  'note': 'Single-pattern answers of wcmatch are trusted here (they are judged by C01-C03); bracex is a black box beyond sets, nesting and ranges.',
+ },
+ 'C08': {
+  'technique': 'differential between translate() regexes (re.fullmatch) and the matcher on enumerated + Hypothesis patterns and names; group count / captured text checked against the AST and reference; atheris target shares the oracle',
+  'text': 'For every enumerated fnmatch AST (budget 3/4) and path pattern (budget 3/4), and for Hypothesis pattern lists with exclusions and random flags, each regex returned by translate() must compile and `any(inc) and not any(exc)` must equal the compiled matcher on every name up to length 3-4 over the representatives; the number of capturing groups must equal the number of extended groups in order of opening, and text captured outside `!(...)` must be in the reference language of its group.',
+  'design_ref': 'DESIGN.md section 3 C08',
+  'note': 'REALPATH excluded; group checks only for generated ASTs (raw fuzz strings have no AST); K1 (`**(`) attributed by class.',
+ },
+ 'C09': {
+  'technique': 'exhaustive short strings x flag subsets (all 4096 for the shortest) + Hypothesis strings incl. drive/UNC shapes; oracle = self-match plus edit-distance-1 neighbourhood judged by an independent normaliser; converse via is_magic',
+  'text': 'escape(s) must match s and reject every edit-distance-1 neighbour and every prefix/suffix extension that is not the same name under the mode\'s case folding, separator equivalence and duplicate/trailing separators; run for fnmatch.escape and glob.escape (unix True/False) under all 4096 subsets of 12 feature flags for one-character strings (two characters thorough) and sampled subsets for all strings up to length 3 over a 21-character alphabet, FORCEUNIX and FORCEWIN; non-magic patterns (is_magic False) are tested the same way as their own pattern.',
+  'design_ref': 'DESIGN.md section 3 C09',
+  'note': '"Matches nothing else" is a neighbourhood test, not a singleton proof. In Windows glob mode duplicate separators inside a UNC prefix are not judged.',
+ },
+ 'C11': {
+  'technique': 'deterministic boundary grid over limits x template shapes x 16 entry points (+ Hypothesis draws); three-valued oracle from expansion counts known by construction; bracex.iexpand wrapped to count work',
+  'text': 'Templates (brace ranges, products, duplicates, `|` splits) with known total T and de-duplicated U expansion counts are placed at L-1, L, L+1 and 1000*L for L in {1,2,3,5,32,33,1000,1001}, split over 1-3 inclusions and 0-2 exclusions (exclude= and inline), plus limit=0, `{1..100000000}` and the defaults; every one of 16 entry points must raise PatternLimitException when U > L, must not when T <= L, and may pull at most L + #patterns items from bracex; signature defaults must be 1000.',
+  'design_ref': 'DESIGN.md section 3 C11',
+  'note': 'The grid is the quantifier of the property; negative limits are not generated. For WcMatch (one `|`-joined string, braces expanded before splitting) only single-brace-piece cases are decided.',
+ },
+ 'C17': {
+  'technique': 'metamorphic closure relations (case change, separator swap, flag cancellation, FORCEWIN vs FORCEUNIX|IGNORECASE) on enumerated and Hypothesis patterns with wcmatch on both sides; drive/UNC table',
+  'text': 'All 16 subsets of {CASE, IGNORECASE, FORCEWIN, FORCEUNIX} on every fnmatch AST of budget 3 over a mixed-case alphabet and on 1-2 segment path patterns, str and bytes: insensitive mode is closed under ASCII case change of names and of pattern literals, sensitive mode accepts literals only in their exact spelling, CASE beats IGNORECASE, FORCEWIN|FORCEUNIX cancel, `/` and `\\` are interchangeable in names and `\\\\` is a separator in patterns under FORCEWIN, FORCEWIN equals FORCEUNIX|IGNORECASE after separator normalisation for backslash-free patterns, drive and UNC prefixes are literal case-insensitive prefixes.',
+  'design_ref': 'DESIGN.md section 3 C17',
+  'note': 'ASCII case only; Windows-native branches are reached only through FORCEWIN; K10 (wildcards matching a drive) attributed by class. In fnmatch mode brackets that contain one separator character but not the other are not judged for the swap relation.',
+ },
+ 'C18': {
+  'technique': 'twin execution (str vs latin-1 encoded bytes) of enumerated and Hypothesis cases; high-byte sweep judged by the reference POSIX table; mixed-type calls must raise TypeError',
+  'text': 'Every enumerated fnmatch AST and path pattern and Hypothesis pattern lists with exclusions and random flags are run as str and as bytes: filter results, translate() output (textually when ASCII), escape(); bytes 0x80-0xFF against all 28 POSIX forms and further brackets, `?`/`*` per byte; glob/iglob/WcMatch with str vs bytes roots on two trees must return the same sequence; 16 mixed-type calls must raise TypeError.',
+  'design_ref': 'DESIGN.md section 3 C18',
+  'note': 'File names on disk are ASCII; translate text equality is only demanded when the str regex is ASCII.',
+ },
+ 'C20': {
+  'technique': 'exhaustive strings over an escape alphabet + Hypothesis escape soups; oracle = independent left-to-right decoder, relation RAWCHARS(p) == plain(decode(p)) via translate text then behaviour',
+  'text': 'Every string up to length 5 over 13 symbols (length 6 over 10, thorough) containing a backslash, as str and bytes, fnmatch and glob, FORCEWIN on/off: the RAWCHARS call must equal the call on the independently decoded text (regex text, else matching on a derived name pool), incomplete escapes must raise SyntaxError, unknown names a lookup error; without RAWCHARS the escaped spelling matches its literal text and not the decoded character; WcMatch file patterns are decoded the same way.',
+  'design_ref': 'DESIGN.md section 3 C20',
+  'note': 'Which exception an out-of-range \\U or a bytes octal above 0o377 produces is not judged here (C10 owns "documented exception").',
+ },
+})
